@@ -93,6 +93,10 @@ def ordered_indices(expr, shapes):
         else:
             base_order[i] = left + 0.01
 
+    # equal positions would be ordered differently from one operand to the
+    # next (stable sort of differently ordered inputs): make them distinct
+    ranked = sorted(base_order, key=lambda x: (base_order[x], x))
+    base_order = {k: i for i, k in enumerate(ranked)}
     base_order = dict(sorted(base_order.items(), key=lambda x: x[0]))
     return base_order
 
